@@ -123,6 +123,9 @@ def conflict(a, b):
     return any(k in lb and lb[k] != v for k, v in la.items())
 
 
+BIG = 2 ** 32
+
+
 class MarkRef(Ref):
     def __init__(self, sidx, kind, defined1):
         self.sidx, self.kind, self.defined1 = sidx, kind, defined1
@@ -138,7 +141,8 @@ class MarkRef(Ref):
             out = []
             for k in (0, 1):
                 for mcv, o in (("OM[", "P"), ("OM]", "O"), ("OM=", "S")):
-                    for v in (1, 2, 0):
+                    # BIG+1 and 1 (BIG and 0) agree in their low 32 bits: the value is 64 bits wide end to end
+                    for v in (1, BIG + 1, 0, BIG):
                         out.append(((o, k, 0, v), Ev(self.sidx[k], mcv, i64(v) + i32(0))))
                     out.append(((o, k, 1, 1), Ev(self.sidx[k], mcv, i64(1) + i32(1))))
                     out.append(((o, k, 7, 1), Ev(self.sidx[k], mcv, i64(1) + i32(7))))
@@ -306,7 +310,7 @@ def run(prop, tier):
         ctx.cov["rule"] = ("(1) every program of <= 3/4 operations over 11 definition and 9 event operations of the mark API through the real libovni: abort iff a "
                            "documented reason applies, else metadata and stream compared with the reference; (2) all 169 pairs of per-thread definitions of one "
                            "type through the real ovniemu (refused iff title/channel type/label conflict; labels merged in both .pcf); (3) explicit-state walks of "
-                           "push/pop/set (values 0,1,2; defined, second and undefined type) on two threads with pause/cool/warm/resume: verdict and rows type 100")
+                           "push/pop/set (values 0, 1, 2^32, 2^32+1; defined, second and undefined type) on two threads with pause/cool/warm/resume: verdict and rows type 100")
         ctx.cov["distinct_nontrivial"] = ctx.cov["states"]
         ctx.assumptions += ["documented refusal reasons from doc/user/runtime/mark.md and the API comments", "walk depth 4/6, stack depth <= 3"]
         return ctx.finish()
